@@ -1329,6 +1329,13 @@ func isRangeTest(a string) bool {
 	if _, err := strconv.Atoi(a[1:i]); err == nil {
 		return false
 	}
+	// the loop's own test is on its own counter: a range index (`rangeindex`), or a loop variable
+	// (a phi) — possibly stepped by a constant. An arithmetic expression over other things
+	// (`i+1 < len(ids)` with i the range index is "is there a next one", a condition of its own)
+	left := a[1:i]
+	if strings.Contains(left, "rangeindex") {
+		return strings.HasSuffix(left, "rangeindex)#0+1") || strings.HasSuffix(left, "rangeindex+1") || !strings.ContainsAny(strings.TrimSuffix(left, "+1"), "+-*/")
+	}
 	return true
 }
 
